@@ -293,7 +293,7 @@ pub fn run(ctx: &Ctx, report: &mut Report) {
         or two malformed case variants."
         .into();
     report.assumptions.push("vmodel::rdata::equal (field-wise, names case-folded, when both operands are well formed; octet-wise otherwise)".into());
-    run_prop(ctx, report, PropSpec { name: "family", cases: ctx.tier.pick(150_000, 3_000_000), max_shrink_iters: 8192 }, family, oracle);
+    run_prop(ctx, report, PropSpec { name: "family", cases: ctx.tier.pick(500_000, 5_000_000), max_shrink_iters: 8192 }, family, oracle);
 }
 
 pub fn replay(_check: &str, case: &serde_json::Value) -> Verdict {
